@@ -227,6 +227,16 @@ def rules(facts):
                 if "Int" in ps and "BigInt" not in ps:
                     p3.examined((f["def"], n.get("sp")), True)
                     p3.violate(f"int-only-let/{f['def']}", f"`{f['def']}` tests for Num::Int with if-let/let-else only: big integers fall into the other branch", where=n.get("sp"))
+    # the accessors that hide the representation must themselves know both of them
+    for f in facts.hir("jaq_json"):
+        if not re.match(r"^jaq_json::num::Num::(as_isize|as_pos_usize|as_f64|is_int|length|from_\w+)$", f["def"]):
+            continue
+        for mm in find(f["body"], lambda n: n.get("k") == "Match" and n.get("src") == "Normal" and NUM in n.get("scrut_ty", "")):
+            named = {(p_.get("path") or {}).get("def", "").split("::")[-1] for a_ in mm["arms"] for p_ in find(a_["pat"], lambda n: n.get("k") in ("TupleStruct", "Path", "Struct")) if str((p_.get("path") or {}).get("def", "")).startswith(NUM + "::")}
+            if "Int" in named:
+                p3.examined((f["def"], "accessor"), True, {"fn": f["def"], "matches": sorted(named)})
+                if "BigInt" not in named:
+                    p3.violate(f"accessor/{f['def']}", f"`{f['def']}` has an arm for machine integers but none for big integers: an integer that happens to be stored as a big integer (e.g. `65 + 2^70 - 2^70`) is refused or converted differently", where=mm["sp"])
     out.append(p3.finish())
 
     # ---------------- T9.5 one operator per operator implementation
